@@ -45,7 +45,7 @@ def cases(tier: str, hname: str) -> List[Any]:
                 out.append({"kind": kind, "where": where})
     else:
         for shared in (False, True):
-            for first in range(4):
+            for first in range(len(OPS)):
                 out.append({"shared": shared, "first": first, "len": 2 if tier == "quick" else 3})
     return out
 
@@ -134,7 +134,12 @@ def roundtrip(c: sym.Ctx, case: Dict[str, Any]) -> None:
     c.check(exc is None and not lab.deadlock, "pipeline_completes", exc=repr(exc), history=steps)
 
 
-OPS = ("plain", "labels", "task_id", "broker")
+OPS = ("plain", "labels", "task_id", "broker", "reused_labels", "reused_plain")
+VALS = [True, 1.0, 1, "1", False, -0.0, 0, b"1"]
+
+
+def _same(a: Any, b: Any) -> bool:
+    return type(a) is type(b) and repr(a) == repr(b)
 
 
 def leak(c: sym.Ctx, case: Dict[str, Any]) -> None:
@@ -169,6 +174,9 @@ def leak(c: sym.Ctx, case: Dict[str, Any]) -> None:
         snapshot = dict(task.labels)
         ops = [OPS[case["first"]]] + [c.choose(OPS, f"op{k}") for k in range(1, case["len"])]
 
+        reused = task.kicker()
+        reused_labels: Dict[str, Any] = {}
+
         async def main() -> None:
             for k, op in enumerate(ops):
                 n1, n2 = len(b1.kicked), len(b2.kicked)
@@ -176,8 +184,17 @@ def leak(c: sym.Ctx, case: Dict[str, Any]) -> None:
                 if op == "plain":
                     await task.kiq(k)
                 elif op == "labels":
-                    await task.kicker().with_labels(extra=f"x{k}", shared=f"call{k}").kiq(k)
-                    want.update(extra=f"x{k}", shared=f"call{k}")
+                    val = VALS[c.choose(len(VALS), f"val{k}")]
+                    await task.kicker().with_labels(extra=val, shared=f"call{k}").kiq(k)
+                    want.update(extra=val, shared=f"call{k}")
+                elif op == "reused_labels":
+                    val = VALS[c.choose(len(VALS), f"val{k}")]
+                    reused_labels.update({f"r{k}": val, "rlast": val})
+                    await reused.with_labels(**{f"r{k}": val, "rlast": val}).kiq(k)
+                    want.update(reused_labels)
+                elif op == "reused_plain":
+                    await reused.kiq(k)
+                    want.update(reused_labels)
                 elif op == "task_id":
                     await task.kicker().with_task_id(f"custom{k}").kiq(k)
                 else:
@@ -191,12 +208,12 @@ def leak(c: sym.Ctx, case: Dict[str, Any]) -> None:
                 msg = src.formatter.loads(src.kicked[-1].message)
                 msg.parse_labels()
                 got = dict(msg.labels)
-                c.check(got == want and all(type(got[x]) is type(want[x]) for x in want), "message_labels_are_declared_plus_own_overrides",
+                c.check(sorted(got) == sorted(want) and all(_same(got[x], want[x]) for x in want), "message_labels_are_declared_plus_own_overrides",
                         op=op, k=k, ops=ops, got=got, want=want)
                 c.check((msg.task_id == f"custom{k}") if op == "task_id" else msg.task_id.startswith("gen"), "task_id_override_only_for_that_call",
                         op=op, k=k, ops=ops, task_id=msg.task_id)
                 now = dict(task.labels)
-                c.check(now == snapshot and all(type(now[x]) is type(snapshot[x]) for x in snapshot), "declared_labels_unchanged",
+                c.check(sorted(now) == sorted(snapshot) and all(_same(now[x], snapshot[x]) for x in snapshot), "declared_labels_unchanged",
                         op=op, k=k, ops=ops, now=now, declared=snapshot)
 
         mt = lab.loop.create_task(main())
